@@ -186,7 +186,8 @@ type SrvReq struct {
 	Conn   *Conn   // Connection that the request belongs to
 
 	status     reqStatus
-	flushreq   *SrvReq
+	flushreq   *SrvReq // first of the Tflush requests waiting for this request
+	flushnext  *SrvReq // if this is a Tflush: the next one waiting for the same request
 	prev, next *SrvReq
 }
 
@@ -418,7 +419,7 @@ func (req *SrvReq) Respond() {
 		if req.flushreq != nil {
 			var p *SrvReq
 			r := nextreq.flushreq
-			for ; r != nil; p, r = r, r.flushreq {
+			for ; r != nil; p, r = r, r.flushnext {
 			}
 
 			if p == nil {
@@ -444,7 +445,7 @@ func (req *SrvReq) Respond() {
 	// respond to the flush messages
 	// can't send the responses directly to conn.reqout, because the
 	// the flushes may be in a tag group too
-	for freq := flushreqs; freq != nil; freq = freq.flushreq {
+	for freq := flushreqs; freq != nil; freq = freq.flushnext {
 		freq.Respond()
 	}
 }
